@@ -40,6 +40,9 @@ Verdict(ev) ==
                                    IF ev.threw THEN {V("P_ScanlineAgrees", "None", Key \o ":walk", [ops |-> ev.ops, threw |-> TRUE])}
                                    ELSE IF Len(ev.got) = Len(exp) /\ \A i \in 1..Len(exp) : ev.got[i][1] = exp[i] /\ exp[i] + 1 \in DOMAIN scanrows /\ ev.got[i][2] = scanrows[exp[i] + 1]
                                    THEN {} ELSE {V("P_ScanlineAgrees", "None", Key \o ":walk", [ops |-> ev.ops, expected_rows |-> exp, got |-> [i \in 1..Len(ev.got) |-> ev.got[i][1]]])}
+           \* (extension X04) a region that does not lie inside the image is rejected with an exception; one that does is not
+           [] ev.e = "Region" -> IF P_RegionInside(ev.iw, ev.ih, ev.x, ev.y, ev.w, ev.h) THEN (IF ev.outcome = "returned" THEN {} ELSE {V("X_RegionInsideAccepted", "None", Key, [region |-> <<ev.x, ev.y, ev.w, ev.h>>, image |-> <<ev.iw, ev.ih>>, outcome |-> ev.outcome])})
+                                 ELSE IF ev.outcome = "threw" THEN {} ELSE {V("X_RegionOutsideRejected", "None", Key, [region |-> <<ev.x, ev.y, ev.w, ev.h>>, image |-> <<ev.iw, ev.ih>>, outcome |-> ev.outcome])}
            [] ev.e = "ScanRows" -> {}
            [] ev.e = "Any"   -> IF ~ev.threw /\ ev.w = canon.w /\ ev.h = canon.h /\ ev.pix = canon.pix THEN {} ELSE {V("P_AnyImageAgrees", "None", Key, [threw |-> ev.threw, index |-> ev.index])}
            [] ev.e = "Fault" -> {V("P_NoFault", IF file.fmt = "bmp" /\ file.variant \in {"rle4", "rle8"} THEN "bmp-rle-partial-read" ELSE "None", Key, ev.kind)}
